@@ -178,7 +178,7 @@ def judge_sample(p, ch, data, n, result, mapping, log, tp, d):
 
 def execute(net, n, seed_arg, answers):
     start = len(rpy2.LOG)
-    with tape.Tape(answers=answers) as tp:
+    with tape.Tape(answers=answers, wide_int_menu=(0.0, 0.5, 1.0)) as tp:
         try:
             r = ("ok", net.sample(n, random_state=seed_arg))
         except tape.TapeError:
@@ -334,12 +334,17 @@ def invalid_cases():
         ("n-list-too-short", "ValueError", lambda: net().sample([2])),
         ("n-list-too-long", "ValueError", lambda: net().sample([2, 2, 2])),
         ("n-list-empty", "ValueError", lambda: net().sample([])),
+        # wrong in two documented ways at once: either documented exception is accepted
+        ("n-list-too-long-with-float", "TypeError|ValueError", lambda: net().sample([2, 2, 2.0])),
+        ("n-list-too-short-with-str", "TypeError|ValueError", lambda: net().sample(["2"])),
     ]
     valid = [
         ("valid-none", lambda: net().sample()),
         ("valid-int", lambda: net().sample(2, random_state=3)),
         ("valid-list", lambda: net().sample([1, 2])),
         ("valid-weighted-graph", lambda: semi.DRFNet(np.array([[0, -2.5], [0, 0]]), data).sample(1)),
+        ("valid-seed-beyond-32-bits", lambda: net().sample(2, random_state=2 ** 32 + 5)),
+        ("valid-seed-beyond-32-bits-edgeless", lambda: semi.DRFNet(np.zeros((2, 2)), data).sample(2, random_state=2 ** 63 - 1)),
     ]
     return cases, valid
 
@@ -356,7 +361,7 @@ def run_invalid(acc):
         acc.outcome([name, r[0]])
         if r[0] == "ok":
             acc.fail("invalid", {"name": name}, "accepted:" + name, "invalid argument (%s) was accepted, documented %s expected" % (name, exc))
-        elif r[1] != exc:
+        elif r[1] not in exc.split("|"):
             acc.fail("invalid", {"name": name}, "wrong-exception:" + name, "invalid argument (%s) raised %s, documented %s expected" % (name, r[2], exc))
     for name, f in valid:
         r = _g.call(f)
@@ -386,7 +391,8 @@ PERTURB = [
 
 
 def observed(seed):
-    return [(n, s) for n in (3, [2, 4]) for s in sorted({0, 1, int(seed) % 2 ** 32})]
+    # seeds beyond 32 bits included: every seed the library's own generator accepts must work and reproduce
+    return [(n, s) for n in (3, [2, 4]) for s in sorted({0, 1, int(seed) % 2 ** 32, 2 ** 40 + 7})]
 
 
 _REF = {}
@@ -397,7 +403,10 @@ def hist_reference(seed):
         tab = {}
         for k, (n, s) in enumerate(observed(seed)):
             net = hist_ctx()
-            tab[k] = H.digest_value(net.sample(n, random_state=s))
+            try:
+                tab[k] = H.digest_value(net.sample(n, random_state=s))
+            except Exception as e:                 # reported by eval_history as a failure of that seeded call
+                tab[k] = ("raises", repr(e))
         _REF[seed] = tab
     return _REF[seed]
 
@@ -417,7 +426,9 @@ def eval_history(hist, seed, upto=None):
         except Exception as e:
             fails.append((k, "raises", "sample(%r, random_state=%d) raised %r" % (n, s, e)))
             continue
-        if d != ref[k]:
+        if isinstance(ref[k], tuple):
+            fails.append((k, "raises", "sample(%r, random_state=%d) raised %s in the initial state" % (n, s, ref[k][1])))
+        elif d != ref[k]:
             fails.append((k, "not-reproducible", "DRFNet.sample(%r, random_state=%d) differs from its result in the initial state after history %s" % (n, s, [PERTURB[i][0] for i in hist])))
         np.random.set_state(st)
     return fails
@@ -524,7 +535,7 @@ def describe(tier, seed):
                 "product when <= %d executions; thorough: else every sequence with <= %d non-default answers where that fits 1500 executions). Oracle: one (n_k x p) array per environment; every value observed for that variable "
                 "in that environment; one fit per (non-source variable, environment) on the sorted parents; exactly one query per fitted model, equal to the synthetic parent "
                 "columns; output = a positive-weight answer of that model; RNG cells driving two source columns of an environment are disjoint (seeded and unseeded); no RNG "
-                "address is consumed twice within one call (single-environment data); 80 targeted 10-node colliders whose parents mix node indices below and above 8. 24 invalid "
+                "address is consumed twice within one call (single-environment data); 80 targeted 10-node colliders whose parents mix node indices below and above 8. 26 invalid "
                 "argument cases -> documented TypeError / ValueError; histories of <= %d perturbing operations: sample(n, random_state=s) bit-identical to the initial state; real "
                 "numpy seeds 0..9: sources not resampled with identical indices. non-trivial: execution with a non-default answer" % (
                     "12th" if tier == "quick" else "3rd", 150 if tier == "quick" else 600, 1 if tier == "quick" else 2, 2 if tier == "quick" else 3),
